@@ -65,6 +65,9 @@ type kl struct {
 	val  interface{}
 	err  error
 	lock chan struct{}
+
+	// built tells waiters that val and err are the outcome of a build, not of a cache read.
+	built bool
 }
 
 // Failover is a cache frontend to manage cache updates in a non-conflicting and performant way.
@@ -197,7 +200,15 @@ func (f *Failover) Get(
 			return nil, unexpectedBackendError // Cache backend failed with unexpected error.
 		}
 
-		return f.waitForValue(withoutSkipRead(ctx), key, keyLock)
+		val, err := f.waitForValue(withoutSkipRead(ctx), key, keyLock)
+
+		// Owner that did not build (valid value found with SyncRead, recent failure) has nothing
+		// for a request that skips cache reads, such request makes a new attempt.
+		if SkipRead(ctx) && !keyLock.built {
+			return f.Get(ctx, key, buildFunc)
+		}
+
+		return val, err
 	}
 
 	// Pushing expired value with short ttl to serve during update.
@@ -236,6 +247,7 @@ func (f *Failover) Get(
 	// Running cache build synchronously.
 	if syncUpdate {
 		keyLock.val, keyLock.err = f.doBuild(ctx, key, value, buildFunc)
+		keyLock.built = true
 		// Return stale value if update fails.
 		if keyLock.err != nil {
 			if f.logWarn != nil {
@@ -267,6 +279,7 @@ func (f *Failover) Get(
 		}()
 
 		keyLock.val, keyLock.err = f.doBuild(ctx, key, value, buildFunc)
+		keyLock.built = true
 		if keyLock.err != nil && f.logWarn != nil {
 			f.logWarn(ctx, "failed to update cache value in background",
 				"error", keyLock.err,
